@@ -42,6 +42,8 @@ def run(chk: Check) -> None:
     chk.floor("R17.3", "reference resolution sites", n, 8)
     from_protobuf_cache(chk, "R17.3")
     lookup_bindings(chk, "R17.3")
+    from .loader import deferred_stage
+    deferred_stage(chk, "R17.5")
     stage_order(chk, "R17.5")
     own = ownership(chk.repo)
     k = 0
